@@ -115,7 +115,9 @@ impl Kind {
             Kind::Username => Some(513),
             Kind::Realm | Kind::Nonce | Kind::Software => Some(763),
             // the crate documents a deliberate leniency (FIXME) for ALTERNATE-DOMAIN: no limit
-            Kind::AlternateDomain => Some(65535),
+            // the crate documents "no limit" (FIXME in alternate.rs): lenient at every length, also for
+            // in-memory raw attributes larger than the 16-bit wire maximum
+            Kind::AlternateDomain => Some(usize::MAX),
             _ => None,
         }
     }
